@@ -166,6 +166,8 @@ func (x *Exec) stepValue1(st *State, in ssa.Value) {
 		var payload Term
 		if _, ok := in.X.Type().Underlying().(*types.Pointer); ok {
 			payload = v.T
+		} else if _, ok := in.X.Type().Underlying().(*types.Signature); ok && v.T.Sort == SInt {
+			payload = v.T // a func value is pointer-shaped: the interface holds it directly
 		} else {
 			payload = x.freshAlloc(st)
 			st.allocs++
@@ -186,7 +188,20 @@ func (x *Exec) stepValue1(st *State, in ssa.Value) {
 		x.setVal(st, in, Val{T: MkSlice(a, Int(0), ln, cp), Ty: in.Type()})
 	case *ssa.MakeClosure:
 		st.allocs++
-		x.setVal(st, in, Val{T: x.fresh("closure", SInt), Ty: in.Type()})
+		a := x.fresh("closure", SInt)
+		// ghost description of the closure: which function it runs and what it captured
+		if fn, ok := in.Fn.(*ssa.Function); ok {
+			cf := x.declareFun("closfn", []Sort{SInt}, SInt)
+			st.assume(Eq(App(cf, SInt, a), Int(int64(x.P.typeID(closureKey{qualName(fn)})))))
+			cv := x.declareFun("closfv", []Sort{SInt, SInt}, SInt)
+			for i, b := range in.Bindings {
+				if bv := x.val(st, b); bv.T.Sort == SInt {
+					st.assume(Eq(App(cv, SInt, a, Int(int64(i))), bv.T))
+				}
+			}
+		}
+		st.assume(Ne(a, Int(0)))
+		x.setVal(st, in, Val{T: a, Ty: in.Type()})
 	case *ssa.Slice:
 		x.doSlice(st, in)
 	case *ssa.TypeAssert:
